@@ -242,6 +242,32 @@ def correspondences(tier, rng):
             return (Opt(list(got), some=True), list(b[pos:]))
         return res(run)
     out.append(Corr("decompilePoints", qcases, impl_decomp_points))
+
+    # --- table tags as identifiers
+    from fontTools.ttLib.ttFont import tagToIdentifier, identifierToTag
+    alpha = [32, 32, 32, 47, 48, 57, 65, 90, 95, 97, 102, 103, 122, 16, 31, 127, 128, 255, 15, 9, 0]
+    tcases = [[rng.choice(alpha) if rng.chance(70) else rng.randint(0, 255) for _ in range(4 if rng.chance(92) else rng.randint(0, 6))] for _ in range(n)]
+    tcases += [[ord(c) for c in t] for t in ("glyf", "cvt ", "OS/2", "CFF ", "    ", "a   ", " a  ", "1abc", "_x_y", "\x05abc")]
+    def impl_tti(cps):
+        return res(lambda: [ord(c) for c in tagToIdentifier(bytes(cps).decode("latin-1"))])
+    def oracle_tti(cps):
+        if len(cps) != 4 or any(c < 16 for c in cps): return None
+        t = bytes(cps).decode("latin-1")
+        back = identifierToTag(tagToIdentifier(t))
+        return None if back == t else "tag %r -> %r -> %r" % (t, tagToIdentifier(t), back)
+    out.append(Corr("tagToIdentifier", tcases, impl_tti, oracle=oracle_tti))
+    icases = []
+    for cps in tcases:
+        if len(cps) != 4: continue
+        try: ident = [ord(c) for c in tagToIdentifier(bytes(cps).decode("latin-1"))]
+        except Exception: continue
+        k = rng.below(5)
+        if k == 0 and ident: ident[rng.below(len(ident))] = rng.choice([95, 48, 65, 97, 103, 71])
+        elif k == 1: ident = ident[:-1]
+        icases.append(ident)
+    def impl_itt(ident):
+        return res(lambda: [ord(c) for c in identifierToTag("".join(chr(c) for c in ident))])
+    out.append(Corr("identifierToTag", icases, impl_itt))
     return out
 
 def sweeps(tier, rng):
